@@ -143,8 +143,61 @@ Definition s_false : str := [102; 97; 108; 115; 101]%N.
 Definition s_dotdot : str := [46; 46]%N.
 Definition s_ForLoop : str := [70; 111; 114; 76; 111; 111; 112]%N.
 
-(** [to_liquid_string] (auto_escape off). Dicts print as Python reprs: outside
-    the model. *)
+Definition s_None_ : str := [78; 111; 110; 101]%N.
+Definition s_True_ : str := [84; 114; 117; 101]%N.
+Definition s_False_ : str := [70; 97; 108; 115; 101]%N.
+
+(** Python [repr] of JSON-like data (what [str(dict)] prints).  Strings are
+    modelled when every character is printable ASCII other than backslash, or
+    U+00E9; anything else is outside the model. *)
+Definition repr_safe_char (ch : N) : bool :=
+  (((32 <=? ch) && (ch <=? 126)) && negb (ch =? 92) || (ch =? 233))%N.
+
+Definition repr_str (s : str) : option str :=
+  if forallb repr_safe_char s then
+    let has_sq := existsb (N.eqb 39) s in
+    let has_dq := existsb (N.eqb 34) s in
+    if has_sq && negb has_dq then Some (34 :: s ++ [34])%N
+    else Some ((39%N :: flat_map (fun ch => if (ch =? 39)%N then [92; 39]%N else [ch]) s) ++ [39%N])
+  else None.
+
+Fixpoint py_repr (v : val) : option str :=
+  match v with
+  | VNil => Some s_None_
+  | VBool b => Some (if b then s_True_ else s_False_)
+  | VInt z => Some (str_of_Z z)
+  | VStr s => repr_str s
+  | VList l =>
+      match (fix go (l : list val) (first : bool) : option str :=
+               match l with
+               | [] => Some []
+               | x :: l' =>
+                   match py_repr x, go l' false with
+                   | Some a, Some b => Some ((if first then [] else [44; 32]%N) ++ a ++ b)
+                   | _, _ => None
+                   end
+               end) l true with
+      | Some body => Some (91%N :: body ++ [93%N])
+      | None => None
+      end
+  | VDict kvs =>
+      match (fix go (l : list (str * val)) (first : bool) : option str :=
+               match l with
+               | [] => Some []
+               | (k, x) :: l' =>
+                   match repr_str k, py_repr x, go l' false with
+                   | Some kk, Some a, Some b =>
+                       Some ((if first then [] else [44; 32]%N) ++ kk ++ [58; 32]%N ++ a ++ b)
+                   | _, _, _ => None
+                   end
+               end) kvs true with
+      | Some body => Some (123%N :: body ++ [125%N])
+      | None => None
+      end
+  | _ => None
+  end.
+
+(** [to_liquid_string] (auto_escape off). A dict prints as its Python repr. *)
 Fixpoint to_liquid_string (v : val) : option str :=
   match v with
   | VStr s => Some s
@@ -162,7 +215,7 @@ Fixpoint to_liquid_string (v : val) : option str :=
              | _, _ => None
              end
          end) l
-  | VDict _ => None
+  | VDict _ => py_repr v
   | VForLoop _ _ _ _ => Some s_ForLoop
   end.
 
@@ -248,19 +301,24 @@ Definition s_parentloop : str := [112; 97; 114; 101; 110; 116; 108; 111; 111; 11
 (** [obj[key]] *)
 Definition raw_getitem (obj key : val) : getres :=
   match obj, key with
+  | VUndef, _ => GOk VUndef                 (* Undefined.__getitem__ returns self *)
+  | _, (VList _ | VDict _ | VRange _ _ | VEmpty | VBlank) =>
+      (* unhashable / not an index: TypeError or KeyError *)
+      match obj with VForLoop _ _ _ _ => GUnmodelled | _ => GMiss end
   | VDict kvs, VStr k => match assoc k kvs with Some v => GOk v | None => GMiss end
-  | VDict _, (VInt _ | VNil) => GMiss
+  | VDict _, (VInt _ | VNil | VBool _) => GMiss
   | VList l, VInt i => match py_index l i with Some v => GOk v | None => GMiss end
+  | VList l, VBool b => match py_index l (if b then 1 else 0)%Z with Some v => GOk v | None => GMiss end
   | VList _, (VStr _ | VNil) => GMiss
   | VStr s, VInt i => match py_index s i with Some c => GOk (VStr [c]) | None => GMiss end
+  | VStr s, VBool b => match py_index s (if b then 1 else 0)%Z with Some c => GOk (VStr [c]) | None => GMiss end
   | VStr _, (VStr _ | VNil) => GMiss
   | VRange lo hi, VInt i =>
       let n := Z.of_nat (range_len lo hi) in
       let j := if (i <? 0)%Z then (i + n)%Z else i in
       if ((j <? 0) || (n <=? j))%Z then GMiss else GOk (VInt (lo + j))
   | VRange _ _, (VStr _ | VNil) => GMiss
-  | (VNil | VBool _ | VInt _ | VEmpty | VBlank), (VStr _ | VInt _ | VNil) => GMiss
-  | VUndef, _ => GOk VUndef                 (* Undefined.__getitem__ returns self *)
+  | (VNil | VBool _ | VInt _ | VEmpty | VBlank), (VStr _ | VInt _ | VNil | VBool _) => GMiss
   | VForLoop name len idx parent, VStr k =>
       if str_eqb k s_name then GOk (VStr name)
       else if str_eqb k s_length then GOk (VInt len)
@@ -272,7 +330,7 @@ Definition raw_getitem (obj key : val) : getres :=
       else if str_eqb k s_last then GOk (VBool (Z.eqb idx (len - 1)))
       else if str_eqb k s_parentloop then GOk parent
       else GMiss
-  | VForLoop _ _ _ _, (VInt _ | VNil) => GMiss
+  | VForLoop _ _ _ _, (VInt _ | VNil | VBool _) => GMiss
   | _, _ => GUnmodelled
   end.
 
